@@ -43,6 +43,11 @@ type KnownFinding struct {
 	Signature map[string]string `json:"signature"`
 	Text      string            `json:"text"`
 	Witness   any               `json:"witness,omitempty"`
+	// Inputs, if present, are the corpus inputs (InputKey: family, description, injector) on
+	// which the finding occurs on the pinned tree. The same signature on any other input is a
+	// different violation of the property and is reported.
+	Inputs []string `json:"inputs,omitempty"`
+	inputs map[string]bool
 }
 
 type FixedFinding struct {
@@ -120,6 +125,41 @@ func (c *Ctx) MatchKnown(sig map[string]string) *KnownFinding {
 		}
 	}
 	return nil
+}
+
+// MatchKnownInput is MatchKnown for findings that list their inputs: the finding matches only
+// on a listed input. pattern reports that the signature alone did match a listed finding.
+func (c *Ctx) MatchKnownInput(sig map[string]string, input string) (f *KnownFinding, pattern *KnownFinding) {
+	k := c.MatchKnown(sig)
+	if k == nil {
+		return nil, nil
+	}
+	if v := os.Getenv("VERIF_COLLECT_KNOWN"); v != "" {
+		// development aid (never set by a registered command): record where listed findings occur
+		c.mu.Lock()
+		if fh, err := os.OpenFile(v, os.O_APPEND|os.O_CREATE|os.O_WRONLY, 0o644); err == nil {
+			fmt.Fprintf(fh, "%s\t%s\t%s\n", c.ID, sigString(k.Signature), input)
+			fh.Close()
+		}
+		c.mu.Unlock()
+		return k, k
+	}
+	if len(k.Inputs) == 0 {
+		return k, k
+	}
+	c.mu.Lock()
+	if k.inputs == nil {
+		k.inputs = map[string]bool{}
+		for _, in := range k.Inputs {
+			k.inputs[in] = true
+		}
+	}
+	ok := k.inputs[input]
+	c.mu.Unlock()
+	if ok {
+		return k, k
+	}
+	return nil, k
 }
 
 // Report classifies a confirmed counterexample: a listed known finding is
